@@ -25,10 +25,14 @@ enum S {
     Display,
     RefreshFull,  // 2in13_v2 set_refresh
     RefreshQuick, // 2in13_v2 set_refresh
+    Frame,        // update_and_display_frame (thorough tier: stickiness must survive ordinary use)
+    Clear,        // clear_frame
 }
 impl S {
-    fn ops(self) -> Vec<Op> {
+    fn ops(self, spec: &'static Spec) -> Vec<Op> {
         match self {
+            S::Frame => vec![frame_op(spec, K::UpdateAndDisplay, 0xC17)],
+            S::Clear => vec![Op::new(K::Clear)],
             S::SelFull => vec![Op::arg(K::SetLut, 1)],
             S::SelQuick => vec![Op::arg(K::SetLut, 2)],
             S::Reload => vec![Op::arg(K::SetLut, 0)],
@@ -47,6 +51,8 @@ impl S {
             S::Display => "display",
             S::RefreshFull => "set_refresh-full",
             S::RefreshQuick => "set_refresh-quick",
+            S::Frame => "frame",
+            S::Clear => "clear",
         }
     }
 }
@@ -78,7 +84,7 @@ fn eval(spec: &'static Spec, refs: &Refs, seq: &[S], rep: Option<&mut Report>) -
     let mut compared = 0u64;
     let name = |q: bool| if q { "quick" } else { "full" };
     for (i, s) in seq.iter().enumerate() {
-        for o in s.ops() {
+        for o in s.ops(spec) {
             let r = rig.apply(&o);
             if !r.is_ok() {
                 return Err(format!("{} -> {}", o.short(), r.short()));
@@ -124,7 +130,7 @@ fn eval(spec: &'static Spec, refs: &Refs, seq: &[S], rep: Option<&mut Report>) -
                     }
                 }
             }
-            S::Display => {}
+            S::Display | S::Frame | S::Clear => {}
         }
     }
     if let Some(rep) = rep {
@@ -156,7 +162,11 @@ pub fn run(ctx: &Ctx) -> Report {
             alpha.push(S::RefreshFull);
             alpha.push(S::RefreshQuick);
         }
-        let maxlen = if ctx.tier_thorough { 4 } else { 3 };
+        if ctx.tier_thorough {
+            alpha.push(S::Frame);
+            alpha.push(S::Clear);
+        }
+        let maxlen = 4;
         let mut cur: Vec<Vec<S>> = vec![vec![]];
         for _ in 0..maxlen {
             let mut next = Vec::new();
